@@ -548,7 +548,7 @@ func checkC16(c *Ctx, r *Report) {
 			for _, in := range b.Instrs {
 				if rg, ok := in.(*ssa.Range); ok {
 					if _, isMap := rg.X.Type().Underlying().(*types.Map); isMap {
-						r.check("C16.ITER", fmt.Sprintf("%s: prints in a defined order", fnName(fn)), rg.Pos(), false, "a printer ranges over a map")
+						r.flag("C16.ITER", fmt.Sprintf("%s: prints in a defined order", fnName(fn)), rg.Pos(), "a printer ranges over a map")
 					}
 				}
 			}
